@@ -10,6 +10,7 @@ import (
 	"regexp"
 	"slices"
 	"strconv"
+	"strings"
 
 	"github.com/dpb587/rdfkit-go/encoding"
 	"github.com/dpb587/rdfkit-go/encoding/jsonld/jsonldcontent"
@@ -109,7 +110,15 @@ func (e *Encoder) Close() error {
 	if usedPrefixes := e.prefixes.GetUsedPrefixes(); len(usedPrefixes) > 0 {
 		for _, prefix := range usedPrefixes {
 			if expanded, found := e.prefixes.ExpandPrefix(iri.PrefixReference{Prefix: prefix}); found {
-				wrappedContext[prefix] = expanded
+				if len(expanded) > 0 && strings.IndexByte(":/?#[]@", expanded[len(expanded)-1]) >= 0 {
+					wrappedContext[prefix] = expanded
+				} else {
+					// a simple term is a prefix only when its IRI ends in a gen-delim character
+					wrappedContext[prefix] = map[string]any{
+						"@id":     expanded,
+						"@prefix": true,
+					}
+				}
 			}
 		}
 	}
